@@ -716,6 +716,7 @@ class Check(common.Check):
         T = [parse_line(l) for l in twin]
         node_ids = {0, -1} | self.default_groups(case)
         handles_buf = []           # bufnum per buffer handle (None after free)
+        handles_bus = []           # (audio?, index, channels) per bus handle (None after free)
         blocks = []                # used blocks of the buffer allocator (from the status suffix)
         depth, block_msgs, aligned = 0, [], len(W) == len(T)
 
@@ -779,6 +780,59 @@ class Check(common.Check):
                     if got != f'i{ACTION_NUM[act]}':
                         return {'what': f'op #{i} `{line}`: add action {act} sent as {got}',
                                 'signature': f'create:action:{op}', 'index': i}
+            # -- release: forced release of `t` seconds is gate = -(t + 1) (EnvGen reference), <= 0: -1, None: 0
+            if op == 'release' and tst.startswith('ok') and tmsgs:
+                from fractions import Fraction
+                t = line.split()[2]
+                if t == 'N':
+                    want = 'i0'
+                else:
+                    x = Fraction(t[1:])
+                    if x <= 0:
+                        want = 'i-1'
+                    else:
+                        y = -(x + 1)
+                        want = f'i{y.numerator}' if t[0] == 'i' else f'f{y.numerator}/{y.denominator}'
+                ts = split_tokens(tmsgs[0])
+                if ts[0] != '/n_set' or ts[2:] != ['sgate', want]:
+                    return {'what': f'op #{i} `{line}`: release must set gate to {want}, sent `{tmsgs[0]}`',
+                            'signature': 'release:gate', 'index': i}
+            # -- buses: commands are computed from the object's own index
+            mbus = re.match(r'ok b(-?\d+)', tst)
+            if op in ('abus', 'cbus', 'abusx', 'cbusx'):
+                if mbus:
+                    handles_bus.append((op.startswith('a'), int(mbus.group(1)), int(line.split()[1][1:])))
+                elif tst.startswith(('ok', 'exc')):
+                    handles_bus.append(None)
+            if op == 'busfree' and tst.startswith('ok'):
+                hb = int(line.split()[1][1:])
+                if hb < len(handles_bus):
+                    handles_bus[hb] = None
+            if op in ('cset', 'csetn', 'csetat', 'csetnat', 'cfill', 'cclear', 'cget', 'cgetn', 'cpairs') \
+                    and tst.startswith('ok') and tmsgs:
+                hb = int(line.split()[1][1:])
+                bus = handles_bus[hb] if hb < len(handles_bus) else None
+                ts = split_tokens(tmsgs[0])
+                off = int(line.split()[2][1:]) if op in ('csetat', 'csetnat') else 0
+                if op == 'cpairs':
+                    off = int(line.split()[2][1:]) if len(line.split()) > 3 else None
+                if bus is None:
+                    return {'what': f'op #{i} `{line}`: `{tmsgs[0]}` sent for a bus that owns no index',
+                            'signature': f'ids:bus:{ts[0]}', 'index': i}
+                if off is not None and len(ts) > 1 and ts[1] != f'i{bus[1] + off}':
+                    return {'what': f'op #{i} `{line}`: the bus owns index {bus[1]}, the command starts at {ts[1]}',
+                            'signature': f'ids:bus:{ts[0]}', 'index': i}
+            if op in ('map', 'mapa', 'mapn', 'mapan') and tst.startswith('ok') and tmsgs:
+                ts = split_tokens(tmsgs[0])
+                toks = line.split()[2:]
+                step = 3 if op in ('mapn', 'mapan') else 2
+                for j in range(0, len(toks) - 1, 2):
+                    t, pos = toks[j + 1], 2 + (j // 2) * step + 1
+                    if t[0] == 'b' and pos < len(ts):
+                        bus = handles_bus[int(t[1:])] if int(t[1:]) < len(handles_bus) else None
+                        if bus is None or ts[pos] != f'i{bus[1]}' or (step == 3 and ts[pos + 1] != f'i{bus[2]}'):
+                            return {'what': f'op #{i} `{line}`: bus argument {t} = {bus} was sent as '
+                                            f'{ts[pos:pos + step - 1]}', 'signature': f'ids:bus:{ts[0]}', 'index': i}
             # -- buffers: life cycle against the allocator
             newblocks = parse_blocks(tst)
             before = blocks
